@@ -617,6 +617,9 @@ func init() {
 								if k, ok := a.(*ssa.Const); ok && k.Value != nil && k.Value.Kind() == constant.Bool && !constant.BoolVal(k.Value) {
 									progressive = false
 								}
+							} else if v, known := coderFlagAfter(c, mk.Call.StaticCallee(), mk.Call.Args, 0); known && !v {
+								// a constructor without the flag parameter that leaves the coder's bool flag false
+								progressive = false
 							}
 						}
 					}
@@ -1274,4 +1277,77 @@ func fieldCacheObject(c *Ctx, r *Report, key string, user, h *ssa.Function) {
 		}
 	}
 	r.ok(key, fnName(h), c.pos(call.Pos()), "cache object: reloaded exactly when the asked field differs from ."+keyField+"; ."+keyField+" and ."+dictField+" are stored together on every path that may report success")
+}
+
+// coderFlagAfter: the value a constructor leaves in the bool field(s) of the
+// chunkedContentCoder it returns: true if some path stores true (or a parameter
+// that is bound to true), false if every store is false / there is none.
+func coderFlagAfter(c *Ctx, fn *ssa.Function, args []ssa.Value, depth int) (value bool, known bool) {
+	if fn == nil || fn.Blocks == nil || depth > 2 {
+		return false, false
+	}
+	known = true
+	for _, b := range fn.Blocks {
+		for _, ins := range b.Instrs {
+			switch x := ins.(type) {
+			case *ssa.Store:
+				fa, ok := x.Addr.(*ssa.FieldAddr)
+				if !ok {
+					continue
+				}
+				owner, f := fieldAddrInfo(fa)
+				if owner == nil || owner.Obj().Name() != "chunkedContentCoder" || f == nil || !isBoolType(f.Type()) {
+					continue
+				}
+				switch v := x.Val.(type) {
+				case *ssa.Const:
+					if v.Value != nil && v.Value.Kind() == constant.Bool && constant.BoolVal(v.Value) {
+						value = true
+					}
+				case *ssa.Parameter:
+					bound := false
+					for pi, prm := range fn.Params {
+						if prm == v && pi < len(args) {
+							if k, ok := args[pi].(*ssa.Const); ok && k.Value != nil && k.Value.Kind() == constant.Bool {
+								bound = true
+								if constant.BoolVal(k.Value) {
+									value = true
+								}
+							}
+						}
+					}
+					if !bound {
+						known = false
+					}
+				default:
+					known = false
+				}
+			case *ssa.Call:
+				sc := x.Call.StaticCallee()
+				if sc == nil || !c.inRoot(sc) || sc == fn {
+					continue
+				}
+				if rt := x.Call.Signature().Results(); rt.Len() == 1 && strings.HasSuffix(rt.At(0).Type().String(), ".chunkedContentCoder") {
+					// a constructor built on another one
+					cargs := make([]ssa.Value, len(x.Call.Args))
+					for i, a := range x.Call.Args {
+						cargs[i] = a
+						for pi, prm := range fn.Params {
+							if a == ssa.Value(prm) && pi < len(args) {
+								cargs[i] = args[pi]
+							}
+						}
+					}
+					v, k := coderFlagAfter(c, sc, cargs, depth+1)
+					if !k {
+						known = false
+					}
+					if v {
+						value = true
+					}
+				}
+			}
+		}
+	}
+	return value, known
 }
